@@ -751,6 +751,326 @@ theorem buildCfg_spec_wellFormedNormalized {p : Program} (h : WellFormedNormaliz
     ∃ g, buildCfgE p = .ok g ∧ g.nodes ~ specNodes p ∧ g.edges ~ specEdges p :=
   buildCfg_spec (wellFormedNormalized_cfgReady h)
 
+/-! ### pairs are pairwise different -/
+
+theorem nodup_of_nodup_map {α β : Type} (f : α → β) : ∀ {l : List α}, (l.map f).Nodup → l.Nodup
+  | [], _ => nodup_nil
+  | a :: l, h => by
+    rw [map_cons, nodup_cons] at h
+    exact nodup_cons.mpr ⟨fun ha => h.1 (mem_map_of_mem ha), nodup_of_nodup_map f h.2⟩
+
+theorem nodup_map_of_inj {α β : Type} (f : α → β) (hf : ∀ a b, f a = f b → a = b) :
+    ∀ {l : List α}, l.Nodup → (l.map f).Nodup
+  | [], _ => nodup_nil
+  | a :: l, h => by
+    rw [nodup_cons] at h
+    rw [map_cons, nodup_cons]
+    refine ⟨?_, nodup_map_of_inj f hf h.2⟩
+    intro hm
+    obtain ⟨b, hb, hfb⟩ := mem_map.mp hm
+    exact h.1 (hf _ _ hfb ▸ hb)
+
+theorem pairs_nodup {p : Program} (hr : CfgReady p) : (pairs p).Nodup := by
+  unfold pairs
+  rw [Nodup, pairwise_flatMap]
+  constructor
+  · intro s hs
+    exact nodup_map_of_inj _ (fun a b h => (Prod.mk.inj h).1) (nodup_of_nodup_map _ (hr.blkTids s hs))
+  · have hsubs : p.subs.Nodup := nodup_of_nodup_map _ hr.subTids
+    refine Pairwise.imp ?_ hsubs
+    intro s s' hne x hx y hy hxy
+    simp only [mem_map] at hx hy
+    obtain ⟨_, _, rfl⟩ := hx
+    obtain ⟨_, _, rfl⟩ := hy
+    exact hne (Prod.mk.inj hxy).2
+
+
+/-! ### `get_entry_nodes_of_subs` -/
+
+/-- the binding `get_entry_nodes_of_subs` inserts for a node -/
+def entryBinding (n : Node) : Option (Tid × Node) :=
+  match n with
+  | .BlkStart blk sub =>
+    match sub.term.blocks with
+    | entry :: _ => if blk.tid = entry.tid then some (sub.tid, n) else none
+    | [] => none
+  | _ => none
+
+theorem entryNodesOfSubs_rev (es : List EdgeRef) : ∀ (l : List Node),
+    entryNodesOfSubs ⟨l.reverse, es⟩ = l.filterMap entryBinding
+  | [] => rfl
+  | n :: l => by
+    have ih := entryNodesOfSubs_rev es l
+    unfold entryNodesOfSubs at ih ⊢
+    simp only [reverse_cons, foldl_append, foldl_cons, foldl_nil, filterMap_cons] at ih ⊢
+    rw [ih]
+    cases n with
+    | BlkStart blk sub =>
+      simp only [entryBinding]
+      cases sub.term.blocks with
+      | nil => rfl
+      | cons e rest =>
+        simp only
+        split <;> rfl
+    | BlkEnd _ _ => rfl
+    | CallReturn _ _ => rfl
+    | CallSource _ _ => rfl
+
+theorem entryNodesOfSubs_eq (g : Graph) : entryNodesOfSubs g = (g.nodes.filterMap entryBinding).reverse := by
+  have := entryNodesOfSubs_rev g.edges g.nodes.reverse
+  simp only [reverse_reverse] at this
+  rw [this, filterMap_reverse]
+
+theorem blkStart_mem_specNodes {p : Program} {blk : Term Blk} {sub : Term Sub} :
+    Node.BlkStart blk sub ∈ specNodes p ↔ (blk, sub) ∈ pairs p := by
+  unfold specNodes
+  simp only [mem_append, mem_flatMap]
+  constructor
+  · rintro ((⟨bs, hbs, hn⟩ | ⟨bs, _, hn⟩) | ⟨rf, _, hn⟩)
+    · simp only [mem_cons, not_mem_nil, or_false] at hn
+      rcases hn with hn | hn
+      · cases hn; exact hbs
+      · cases hn
+    · obtain ⟨c, _, hc⟩ := mem_map.mp hn
+      simp [CallSite.sourceNode] at hc
+    · split at hn
+      · obtain ⟨c, _, hc⟩ := mem_map.mp hn
+        simp [callReturnNode] at hc
+      · cases hn
+  · intro h
+    exact .inl (.inl ⟨(blk, sub), h, by simp⟩)
+
+/-- **C08-entry-nodes.** `get_entry_nodes_of_subs` maps the TID of every function that has blocks to
+the `BlkStart` node of its first block, and nothing else. -/
+theorem entryNodesOfSubs_spec {p : Program} (hr : CfgReady p) {g : Graph} (hg : buildCfgE p = .ok g) (t : Tid) :
+    Cfg.lookup t (entryNodesOfSubs g) = specEntryNode p t := by
+  obtain ⟨g', hg', hpn, _⟩ := buildCfg_spec hr
+  rw [hg] at hg'
+  cases hg'
+  rw [entryNodesOfSubs_eq]
+  -- what the bindings are
+  have hmem : ∀ kv, kv ∈ (g.nodes.filterMap entryBinding).reverse ↔
+      ∃ s ∈ p.subs, ∃ e rest, s.term.blocks = e :: rest ∧ kv = (s.tid, Node.BlkStart e s) := by
+    intro kv
+    simp only [mem_reverse, mem_filterMap]
+    constructor
+    · rintro ⟨n, hn, hb⟩
+      cases n with
+      | BlkStart blk sub =>
+        have hp := blkStart_mem_specNodes.mp (hpn.mem_iff.mp hn)
+        have ⟨hs, hbm⟩ := mem_pairs.mp hp
+        simp only [entryBinding] at hb
+        cases hbl : sub.term.blocks with
+        | nil => simp [hbl] at hb
+        | cons e rest =>
+          simp only [hbl] at hb
+          split at hb
+          next heq =>
+            cases hb
+            have : blk = e := inj_of_nodup_map (·.tid) (hr.blkTids _ hs) hbm (by simp [hbl]) heq
+            subst this
+            exact ⟨sub, hs, blk, rest, hbl, rfl⟩
+          next => cases hb
+      | BlkEnd _ _ => simp [entryBinding] at hb
+      | CallReturn _ _ => simp [entryBinding] at hb
+      | CallSource _ _ => simp [entryBinding] at hb
+    · rintro ⟨s, hs, e, rest, hbl, rfl⟩
+      refine ⟨.BlkStart e s, hpn.mem_iff.mpr (blkStart_mem_specNodes.mpr (mem_pairs.mpr ⟨hs, by simp [hbl]⟩)), ?_⟩
+      simp [entryBinding, hbl]
+  unfold specEntryNode
+  cases hso : subOf p t with
+  | none =>
+    apply lookup_eq_none
+    intro kv hkv
+    obtain ⟨s, hs, e, rest, _, rfl⟩ := (hmem kv).mp hkv
+    intro ht
+    have := find?_eq_none.mp hso s hs
+    simp at this
+    exact this ht
+  | some s =>
+    obtain ⟨hs, rfl⟩ := subOf_some hso
+    cases hbl : s.term.blocks with
+    | nil =>
+      simp only [hbl, head?_nil, Option.map_none]
+      apply lookup_eq_none
+      intro kv hkv
+      obtain ⟨s', hs', e, rest, hbl', rfl⟩ := (hmem kv).mp hkv
+      intro ht
+      have : s' = s := inj_of_nodup_map (·.tid) hr.subTids hs' hs ht
+      subst this
+      rw [hbl] at hbl'
+      cases hbl'
+    | cons e rest =>
+      simp only [hbl, head?_cons, Option.map_some]
+      apply lookup_eq_some
+      · exact (hmem _).mpr ⟨s, hs, e, rest, hbl, rfl⟩
+      · intro v hv
+        obtain ⟨s', hs', e', rest', hbl', heq⟩ := (hmem _).mp hv
+        simp only [Prod.mk.injEq] at heq
+        obtain ⟨ht, rfl⟩ := heq
+        have : s' = s := inj_of_nodup_map (·.tid) hr.subTids hs' hs ht.symm
+        subst this
+        rw [hbl] at hbl'
+        cases hbl'
+        rfl
+
+/-! ### node weights are pairwise different -/
+
+theorem nodup_flatMap_of {α β : Type} {f : α → List β} :
+    ∀ {l : List α}, l.Nodup → (∀ a ∈ l, (f a).Nodup) →
+      (∀ a ∈ l, ∀ b ∈ l, a ≠ b → ∀ x ∈ f a, x ∉ f b) → (l.flatMap f).Nodup
+  | [], _, _, _ => by simp
+  | a :: l, hn, h1, h2 => by
+    rw [nodup_cons] at hn
+    simp only [flatMap_cons]
+    rw [nodup_append]
+    refine ⟨h1 a (by simp), nodup_flatMap_of hn.2 (fun x hx => h1 x (by simp [hx]))
+      (fun x hx y hy => h2 x (by simp [hx]) y (by simp [hy])), ?_⟩
+    intro x hx y hy hxy
+    subst hxy
+    obtain ⟨b, hb, hxb⟩ := mem_flatMap.mp hy
+    exact h2 a (by simp) b (by simp [hb]) (fun hab => hn.1 (hab ▸ hb)) x hx hxb
+
+/-- a block has at most one internal call site -/
+theorem callSites_length_le_one {p : Program} (hr : CfgReady p) {bs : BlkSub} (hm : bs ∈ pairs p) :
+    (callSites p bs).length ≤ 1 := by
+  have ⟨hs, hb⟩ := mem_pairs.mp hm
+  have hsh := hr.shape _ hs _ hb
+  unfold jmpShapeOk at hsh
+  unfold callSites
+  have h1 : ∀ j, (callSite1 p bs j).length ≤ 1 := by
+    intro j
+    unfold callSite1
+    split
+    · split <;> simp
+    · simp
+  rcases hjm : bs.1.term.jmps with _ | ⟨j1, _ | ⟨j2, _ | ⟨j3, rest⟩⟩⟩
+  · simp
+  · simpa using h1 j1
+  · simp only [hjm] at hsh
+    have : callSite1 p bs j1 = [] := by
+      obtain ⟨t, jt⟩ := j1
+      cases jt <;> simp_all [isCBranch, callSite1]
+    simpa [this] using h1 j2
+  · simp [hjm] at hsh
+
+theorem nodup_of_length_le_one {α : Type} {l : List α} (h : l.length ≤ 1) : l.Nodup := by
+  rcases l with _ | ⟨a, _ | ⟨b, rest⟩⟩
+  · simp
+  · simp
+  · simp at h
+
+theorem retSites_length_le_one {p : Program} (hr : CfgReady p) {bs : BlkSub} (hm : bs ∈ pairs p) :
+    (retSites p bs).length ≤ 1 := by
+  have h := callSites_length_le_one hr hm
+  unfold retSites
+  have h1 : ∀ c : CallSite, c.retSite.length ≤ 1 := by
+    intro c
+    unfold CallSite.retSite
+    split
+    · split <;> simp
+    · simp
+  rcases hc : callSites p bs with _ | ⟨c, _ | ⟨c2, rest⟩⟩
+  · simp
+  · simpa using h1 c
+  · rw [hc] at h; simp at h
+
+/-- the call sites with a return site of the whole program have pairwise different sources -/
+theorem allRetSites_src_nodup {p : Program} (hr : CfgReady p) :
+    (((pairs p).flatMap (retSites p)).map (fun cr => cr.1.src)).Nodup := by
+  rw [map_flatMap]
+  refine nodup_flatMap_of (pairs_nodup hr) ?_ ?_
+  · intro bs hbs
+    exact nodup_of_length_le_one (by simpa using retSites_length_le_one hr hbs)
+  · intro a _ b _ hab x hxa hxb
+    obtain ⟨cr, hcr, rfl⟩ := mem_map.mp hxa
+    obtain ⟨cr', hcr', heq⟩ := mem_map.mp hxb
+    have h1 := (mem_callSites (mem_retSites hcr)).1
+    have h2 := (mem_callSites (mem_retSites hcr')).1
+    exact hab (by rw [← h1, ← heq, h2])
+
+theorem Nodup.filter' {α : Type} (q : α → Bool) {l : List α} (h : l.Nodup) : (l.filter q).Nodup :=
+  Nodup.sublist filter_sublist h
+
+/-- **C08-nodes-distinct.** The node weights of the graph are pairwise different, so identifying a
+node by its weight (kind, block, function[, second pair]) loses nothing. -/
+theorem specNodes_nodup {p : Program} (hr : CfgReady p) : (specNodes p).Nodup := by
+  have hnd := pairs_nodup hr
+  unfold specNodes
+  rw [nodup_append, nodup_append]
+  refine ⟨⟨?_, ?_, ?_⟩, ?_, ?_⟩
+  · -- BlkStart / BlkEnd
+    refine nodup_flatMap_of hnd ?_ ?_
+    · intro bs _; simp
+    · intro a _ b _ hab x hxa hxb
+      simp only [mem_cons, not_mem_nil, or_false] at hxa hxb
+      rcases hxa with rfl | rfl <;> rcases hxb with h | h <;>
+        simp only [Node.BlkStart.injEq, Node.BlkEnd.injEq, reduceCtorEq] at h <;>
+        exact hab (Prod.ext h.1 h.2)
+  · -- CallSource
+    refine nodup_flatMap_of hnd ?_ ?_
+    · intro bs hbs
+      exact nodup_of_length_le_one (by simpa using callSites_length_le_one hr hbs)
+    · intro a _ b _ hab x hxa hxb
+      obtain ⟨c, hc, rfl⟩ := mem_map.mp hxa
+      obtain ⟨c', hc', heq⟩ := mem_map.mp hxb
+      simp only [CallSite.sourceNode, Node.CallSource.injEq] at heq
+      exact hab (by rw [← (mem_callSites hc).1, ← heq.1, (mem_callSites hc').1])
+  · intro x hx y hy hxy
+    subst hxy
+    obtain ⟨bs, _, hb⟩ := mem_flatMap.mp hx
+    obtain ⟨bs', _, hb'⟩ := mem_flatMap.mp hy
+    obtain ⟨c, _, hc⟩ := mem_map.mp hb'
+    simp only [mem_cons, not_mem_nil, or_false] at hb
+    rcases hb with rfl | rfl <;> simp [CallSite.sourceNode] at hc
+  · -- CallReturn
+    refine nodup_flatMap_of hnd ?_ ?_
+    · intro rf _
+      split
+      · have h := allRetSites_src_nodup hr
+        have h2 : ((returningCallsTo p rf.2.tid).map (fun cr => cr.1.src)).Nodup := by
+          unfold returningCallsTo
+          exact Nodup.sublist (Sublist.map _ filter_sublist) h
+        have h3 := nodup_of_nodup_map _ h2
+        refine nodup_of_nodup_map (fun n => match n with | .CallReturn c _ => c | _ => rf) ?_
+        rw [map_map]
+        exact h2
+      · simp
+    · intro a _ b _ hab x hxa hxb
+      split at hxa
+      · split at hxb
+        · obtain ⟨c, _, rfl⟩ := mem_map.mp hxa
+          obtain ⟨c', _, heq⟩ := mem_map.mp hxb
+          simp only [callReturnNode, Node.CallReturn.injEq] at heq
+          exact hab heq.2.symm
+        · cases hxb
+      · cases hxa
+  · intro x hx y hy hxy
+    subst hxy
+    rcases mem_append.mp hx with hx | hx
+    · obtain ⟨bs, _, hb⟩ := mem_flatMap.mp hx
+      obtain ⟨rf, _, hr'⟩ := mem_flatMap.mp hy
+      split at hr'
+      · obtain ⟨c, _, hc⟩ := mem_map.mp hr'
+        simp only [mem_cons, not_mem_nil, or_false] at hb
+        rcases hb with rfl | rfl <;> simp [callReturnNode] at hc
+      · cases hr'
+    · obtain ⟨bs, _, hb⟩ := mem_flatMap.mp hx
+      obtain ⟨c0, _, hc0⟩ := mem_map.mp hb
+      obtain ⟨rf, _, hr'⟩ := mem_flatMap.mp hy
+      split at hr'
+      · obtain ⟨c, _, hc⟩ := mem_map.mp hr'
+        rw [← hc0] at hc
+        simp [callReturnNode, CallSite.sourceNode] at hc
+      · cases hr'
+
+theorem buildCfg_nodes_nodup {p : Program} (hr : CfgReady p) {g : Graph} (hg : buildCfgE p = .ok g) :
+    g.nodes.Nodup := by
+  obtain ⟨g', hg', hpn, _⟩ := buildCfg_spec hr
+  rw [hg] at hg'
+  cases hg'
+  exact hpn.nodup_iff.mpr (specNodes_nodup hr)
+
 /-! ### non-vacuity: a concrete normalized program -/
 
 namespace Example
